@@ -1,3 +1,4 @@
+import PcVerif.Model.Regions
 import PcVerif.Ops.Caption
 import PcVerif.Model.DfxpTime
 import PcVerif.Model.SamiTime
@@ -40,6 +41,12 @@ open Proto
 def langOps : List (String × Handler) := [
   ("dfxp.langs", fun a => match a with
     | [tt, d, divs] => encStrs (Langs.readLanguages (decOptStr tt) (decStr d) (decList decOptStr divs))
+    | _ => "bad-args"),
+  -- the default region's id and the ids handed out to `n` layouts when the styles use the ids `taken`
+  ("dfxp.regionids", fun a => match a with
+    | [taken, n] =>
+      let t := (decStrs taken).map String.ofList
+      encStrs ((Regions.defaultRegionIdFor t :: Regions.freshIds t n.toNat! 0).map String.toList)
     | _ => "bad-args")
 ]
 end PcVerif.Ops
